@@ -1,10 +1,43 @@
 /-
   DDS.Proofs.GenForEach — the REGENERATED state-passing `ForEach` of the three stores
-  (`DDS/Generated/CodeDenseIter.lean`, `CodeSparseIter.lean`, `CodePaginatedIter.lean`) is the stop-aware left fold
-  `visitS` of the visitor over the hand model's list of bins.
+  (`DDS/Generated/CodeDenseIter.lean`, `CodeSparseIter.lean`, `CodePaginatedIter.lean`; the translator's convention:
+  `ForEach {σ} fuel … (st : σ) (f : σ → Int → Rat → Res (σ × Bool)) : Res (σ × …)`, the state is threaded through every
+  call of `f`, a visitor answering `true` stops the iteration) is the stop-aware left fold `visitS` of the visitor
+  over the hand model's list of bins.
 
   `visitS f st l`: call `f st i c` on each bin `(i, c)` of `l` in order, threading the state; stop with the state the
-  visitor returned as soon as it answers `true`; `.panic` / `.nofuel` of the visitor propagate.
+  visitor returned as soon as it answers `true`; `.panic` / `.nofuel` of the visitor propagate (`visitS_cons`).
+
+  1. DENSE (`DDS.Gen.DenseIter.DenseStore.ForEach`, model `DStore`, embedding `GenDense.toGen`)
+     * `dense_forEach_eq_walk` (every store, no hypothesis but fuel): `ForEach fuel (toGen s) st f
+         = denseWalk s f st (idxRange s.minIndex s.maxIndex)` — the checked walk over the window (out-of-range read =
+       panic, non-positive counts skipped); fuel `denseFuel s = (maxIndex - minIndex + 1).toNat + 1`.
+       `dense_forEach_gen`: the same for every generated store `g` through `ofGen`.
+     * `dense_forEach_eq_visitS` (MAIN): `s.binsList = some bins → ForEach fuel (toGen s) st f = visitS f st bins`;
+       `dense_forEach_inv`: under `DStore.Inv s` such a `bins` exists.
+     * `dense_forEach_panic`: `s.binsList = none`, visitor total and never stopping ⇒ `.panic` (as the model).
+     * DIFFERENCE (not reachable under `Inv`): the model's `binsList` is all-or-nothing, the generated loop is lazy:
+       `lazyEx_binsList` / `lazyEx_forEach` — window leaving the array, `binsList = none`, yet a visitor that stops
+       on the first bin gets `.ok`.
+  2. PAGINATED (`DDS.Gen.PaginatedIter.BufferedPaginatedStore.ForEach`, model `PStore`, embedding `GenPag.toGen s cap`)
+     * `pag_forEach_eq_visitS` (MAIN; every store, capacity, visitor; NO invariant):
+         `ForEach fuel (toGen s cap) st f = (visitS f st s.binsList).bind (fun st' => .ok (st', toGen s.sortRead cap))`
+       when `GenPag.forEachFuel s = s.buffer.length + 1 ≤ fuel`.  The proof is `GenPag.forEach_eq_visit` with the state
+       threaded (`pg_loop6_run`, `pg_loop5_spec`, `pg_loop4_spec`, `pg_loop3_spec`, `pg_loop1_spec`; the state-independent
+       data — consumed prefix, remaining runs — are existentially quantified OUTSIDE `∀ st`); the run calculus
+       (`expand`, `RunsOK`, `takeLt/afterRest/mergedN`, `emitted/remaining`, `mergeIter_split`) is imported from there.
+  3. SPARSE (`DDS.Gen.SparseIter.SparseStore.ForEach`)
+     * `sparse_forEach_eq_visitS` (every store, every oracle, ANY fuel — the loop is structural):
+         `ForEach fuel ord g st f = visitS f st (mrange ord g.counts)`.
+     * `sparse_forEach_model`: `RepS g c`, `ord.Lawful` ⇒ `… = visitS f st (mrange ord c) ∧ (mrange ord c).Perm c`;
+       `sparse_forEach_ascending`: with `MapOrder.ascending` the list is the model's content `c` itself.
+  COROLLARIES (generic: `visitS_collect`, `visitS_logStop`, `visitS_total`, `visitS_pred`; per store `*_forEach_collect`,
+  `*_forEach_logStop`):
+     (a) the collecting visitor `collect = fun acc i c => .ok (acc ++ [(i, c)], false)` ends with `acc ++ bins`;
+     (b) `logStop p = fun acc i c => .ok (acc ++ [(i, c)], p i c)` (records every call, stops at the first bin satisfying
+         `p`) ends with `acc ++ uptoFirst p bins`: the visitor is called exactly on the bins up to and including the
+         first one satisfying `p` — iteration stops as soon as asked.
+  No disagreement between generated code and model on reachable stores.
 -/
 import DDS.Generated.CodeDenseIter
 import DDS.Generated.CodeSparseIter
@@ -337,6 +370,76 @@ theorem dense_forEach_logStop (s : DStore) (bins : List (Int × Rat)) (hb : s.bi
     (p : Int → Rat → Bool) (acc : List (Int × Rat)) (fuel : Nat) (hf : denseFuel s ≤ fuel) :
     DenseStore.ForEach fuel (GenDense.toGen s) acc (logStop p) = .ok (acc ++ uptoFirst p bins) := by
   rw [dense_forEach_eq_visitS s bins hb acc (logStop p) fuel hf, visitS_logStop]
+
+/-- every generated `DenseStore` (not only images of model stores): the same equation through `ofGen` -/
+theorem dense_forEach_gen {σ : Type} (g : GS) (st : σ) (f : σ → Int → Rat → Res (σ × Bool)) (fuel : Nat)
+    (hf : denseFuel (ofGen g) ≤ fuel) :
+    DenseStore.ForEach fuel g st f = denseWalk (ofGen g) f st (idxRange g.minIndex g.maxIndex) := by
+  have h := dense_forEach_eq_walk (ofGen g) st f fuel hf
+  rw [toGen_ofGen] at h
+  exact h
+
+/-- the model's `binsList` fails (an index of the window lies outside the array, impossible under `Inv`): a visitor
+    that never stops and never fails reaches the bad index, `ForEach` panics like the model -/
+theorem denseWalk_panic_of_none {σ : Type} (s : DStore) (f : σ → Int → Rat → Res (σ × Bool))
+    (htot : ∀ st i c, ∃ st', f st i c = .ok (st', false)) :
+    ∀ (l : List Int) (st : σ),
+      l.foldrM (fun idx acc => do
+          let c ← rd s.bins (idx - s.offset)
+          pure (if c > 0 then (idx, c) :: acc else acc)) ([] : List (Int × Rat)) = none →
+      denseWalk s f st l = .panic := by
+  intro l
+  induction l with
+  | nil => intro st h; simp at h
+  | cons idx rest ih =>
+    intro st h
+    rw [List.foldrM_cons] at h
+    simp only [denseWalk]
+    cases hrd : rd s.bins (idx - s.offset) with
+    | none => rfl
+    | some c =>
+      have hrest : rest.foldrM (fun idx acc => do
+          let c ← rd s.bins (idx - s.offset)
+          pure (if c > 0 then (idx, c) :: acc else acc)) ([] : List (Int × Rat)) = none := by
+        cases hacc : rest.foldrM (fun idx acc => do
+            let c ← rd s.bins (idx - s.offset)
+            pure (if c > 0 then (idx, c) :: acc else acc)) ([] : List (Int × Rat)) with
+        | none => rfl
+        | some acc => rw [hacc] at h; simp [hrd] at h
+      simp only []
+      by_cases hc : 0 < c
+      · rw [if_pos hc]
+        obtain ⟨st', hst'⟩ := htot st idx c
+        rw [hst']
+        exact ih st' hrest
+      · rw [if_neg hc]
+        exact ih st hrest
+
+theorem dense_forEach_panic {σ : Type} (s : DStore) (hb : s.binsList = none) (st : σ)
+    (f : σ → Int → Rat → Res (σ × Bool)) (htot : ∀ st i c, ∃ st', f st i c = .ok (st', false))
+    (fuel : Nat) (hf : denseFuel s ≤ fuel) :
+    DenseStore.ForEach fuel (GenDense.toGen s) st f = .panic := by
+  rw [dense_forEach_eq_walk s st f fuel hf]
+  exact denseWalk_panic_of_none s f htot _ st hb
+
+/-- … but the generated iteration is LAZY where the model's list is all-or-nothing: on a store whose window leaves
+    the array (`binsList = none`), a visitor that stops before the bad index gets its answer.  (Not reachable: `Inv`
+    keeps the window inside the array.) -/
+def lazyEx : DStore :=
+  { kind := .plain, bins := #[1], count := 1, offset := 0, minIndex := 0, maxIndex := 1, isCollapsed := false }
+
+theorem lazyEx_binsList : lazyEx.binsList = none := by decide
+
+theorem lazyEx_forEach :
+    DenseStore.ForEach 3 (GenDense.toGen lazyEx) ([] : List (Int × Rat)) (logStop (fun _ _ => true))
+      = .ok [(0, 1)] := by
+  rw [dense_forEach_eq_walk lazyEx _ _ 3 (by decide)]
+  have h0 : rd lazyEx.bins (0 - lazyEx.offset) = some 1 := by decide
+  have hr : idxRange lazyEx.minIndex lazyEx.maxIndex = [0, 1] := by decide
+  rw [hr]
+  simp only [denseWalk, h0]
+  rw [if_pos (by decide)]
+  rfl
 
 end Dense
 
